@@ -349,6 +349,12 @@ func normalizeFuncKey(s, pkgPath string) string {
 	if pkgPath == "" {
 		return s
 	}
+	if strings.Contains(s, "/") {
+		return s // a full key (a dependency's function named from a package's contract file)
+	}
+	if strings.HasPrefix(s, "var:") {
+		return "var:" + pkgPath + "." + strings.TrimPrefix(s, "var:")
+	}
 	if strings.HasPrefix(s, "field:") {
 		return "field:" + pkgPath + "." + strings.TrimPrefix(s, "field:")
 	}
